@@ -107,6 +107,9 @@ structure Phonons where
 /-- a `GroupVelocity` object holds the dynamical-matrix object it was constructed with -/
 structure GVObj where
   dm : DMObj
+  /-- `GroupVelocity(…, q_length=self._gv_delta_q)`: `none` = analytical derivative (unless the
+  dynamical matrix is Gonze–Lee, for which `GroupVelocity` itself falls back to its default 1e-5) -/
+  qLength : Option Val := none
   deriving DecidableEq, Repr
 
 structure Obj where
@@ -125,10 +128,14 @@ structure Obj where
   band : Option Phonons := none
   tp : Option Phonons := none
   dos : Option Phonons := none
+  /-- the constructor option `group_velocity_delta_q` (`Phonopy._gv_delta_q`); no operation of the
+  modelled API writes it -/
+  gvDeltaQ : Option Val := none
   deriving DecidableEq, Repr
 
-def Obj.init (masses : Option Val) (fsf : Bool := false) : Obj :=
-  { fc := none, nac := none, masses := masses, dataset := none, disps := none, dm := none, gv := none, fsf := fsf }
+def Obj.init (masses : Option Val) (fsf : Bool := false) (gvDeltaQ : Option Val := none) : Obj :=
+  { fc := none, nac := none, masses := masses, dataset := none, disps := none, dm := none, gv := none, fsf := fsf,
+    gvDeltaQ := gvDeltaQ }
 
 structure St where
   h : Heap
@@ -234,7 +241,7 @@ def setDM (F : Fns) (h : Heap) (o : Obj) : Heap × Obj × Option Err :=
     let d : DMObj := { id := kc.1.ids, cls := clsOf F nacv, fcRef := kc.2, nac := nacv.map F.symNac, gonze := none }
     -- self._force_constants = self._dynamical_matrix.force_constants
     -- if self._group_velocity is not None: self._set_group_velocity()
-    (kc.1.bumpId, { o with dm := some d, fc := some kc.2, gv := o.gv.map fun _ => ⟨d⟩ }, none)
+    (kc.1.bumpId, { o with dm := some d, fc := some kc.2, gv := o.gv.map fun _ => ⟨d, o.gvDeltaQ⟩ }, none)
 
 /-- `if self._primitive.masses is not None: self._set_dynamical_matrix()` -/
 def setDMIfMasses (F : Fns) (h : Heap) (o : Obj) : Heap × Obj × Option Err :=
@@ -267,9 +274,9 @@ def phononsOf (h : Heap) (d : DMObj) (m : Val) : Phonons :=
   { cls := d.cls, fc := usedFc h d, nac := d.nac, masses := m }
 
 /-- `if self._group_velocity is None: self._set_group_velocity()` -/
-def gvOr (g : Option GVObj) (d : DMObj) : GVObj :=
+def gvOr (g : Option GVObj) (d : DMObj) (q : Option Val := none) : GVObj :=
   match g with
-  | none => ⟨d⟩
+  | none => ⟨d, q⟩
   | some g => g
 
 def Obj.derivedGet (o : Obj) : Derived → Option Phonons
@@ -334,31 +341,31 @@ def step (F : Fns) (s : St) : Op → St × Out
       if r < s.h.next ∧ s.h.kind r = .ds then
         (⟨s.h.alloc (s.h.cells r) true .ds, { s.o with dataset := some s.h.next, disps := none }⟩, .ok)
       else (s, .err .badRef)
-  | .copy => (s, .copied (Obj.init s.o.masses s.o.fsf))
+  | .copy => (s, .copied (Obj.init s.o.masses s.o.fsf s.o.gvDeltaQ))
   | .callerMutates a v =>
     if a < s.h.next then (⟨s.h.write a v, s.o⟩, .ok) else (s, .err .badRef)
   | .query .freq =>
     match s.o.dm, s.o.masses with
     | some d, some m =>
       let d' := touchGonze s.h d
-      let gv := s.o.gv.map fun g => if g.dm.id = d.id then (⟨d'⟩ : GVObj) else g
+      let gv := s.o.gv.map fun g => if g.dm.id = d.id then ({ g with dm := d' } : GVObj) else g
       (⟨s.h, { s.o with dm := some d', gv := gv }⟩, .phonons { ph := phononsOf s.h d' m, gv := none })
     | _, _ => (s, .err .noDM)
   | .query .freqGV =>
     match s.o.dm, s.o.masses with
     | some d, some m =>
       -- if self._group_velocity is None: self._set_group_velocity()
-      let g : GVObj := gvOr s.o.gv d
+      let g : GVObj := gvOr s.o.gv d s.o.gvDeltaQ
       let gd := touchGonze s.h g.dm
       let d' := if g.dm.id = d.id then gd else touchGonze s.h d
-      (⟨s.h, { s.o with dm := some d', gv := some ⟨gd⟩ }⟩,
+      (⟨s.h, { s.o with dm := some d', gv := some { g with dm := gd } }⟩,
         .phonons { ph := phononsOf s.h d' m, gv := some (phononsOf s.h gd m) })
     | _, _ => (s, .err .noDM)
   | .query (.run .mesh) =>
     match s.o.dm, s.o.masses with
     | some d, some m =>
       let d' := touchGonze s.h d
-      let gv := s.o.gv.map fun g => if g.dm.id = d.id then (⟨d'⟩ : GVObj) else g
+      let gv := s.o.gv.map fun g => if g.dm.id = d.id then ({ g with dm := d' } : GVObj) else g
       (⟨s.h, { s.o with dm := some d', gv := gv, mesh := some (phononsOf s.h d' m) }⟩,
         .phonons { ph := phononsOf s.h d' m, gv := none })
     | _, _ => (s, .err .noDM)
@@ -366,7 +373,7 @@ def step (F : Fns) (s : St) : Op → St × Out
     match s.o.dm, s.o.masses with
     | some d, some m =>
       let d' := touchGonze s.h d
-      let gv := s.o.gv.map fun g => if g.dm.id = d.id then (⟨d'⟩ : GVObj) else g
+      let gv := s.o.gv.map fun g => if g.dm.id = d.id then ({ g with dm := d' } : GVObj) else g
       (⟨s.h, { s.o with dm := some d', gv := gv, band := some (phononsOf s.h d' m) }⟩,
         .phonons { ph := phononsOf s.h d' m, gv := none })
     | _, _ => (s, .err .noDM)
@@ -404,7 +411,8 @@ def outs (F : Fns) : St → List Op → List Out
 
 def Heap.empty : Heap := { cells := fun _ => 0, own := fun _ => false, kind := fun _ => .fc, next := 0, ids := 0 }
 
-def St.init (masses : Option Val) (fsf : Bool := false) : St := ⟨Heap.empty, Obj.init masses fsf⟩
+def St.init (masses : Option Val) (fsf : Bool := false) (gvDeltaQ : Option Val := none) : St :=
+  ⟨Heap.empty, Obj.init masses fsf gvDeltaQ⟩
 
 /-! ### specification: a freshly constructed object -/
 
@@ -485,7 +493,13 @@ def St.digest (s : St) : String :=
     | some _, none => "stale"
   "fc=" ++ so (s.o.fc.map s.h.cells) ++ " nac=" ++ so (s.o.nac.map s.h.cells) ++ " m=" ++ so s.o.masses ++
     " ds=" ++ so (s.o.dataset.map s.h.cells) ++ " disps=" ++ so s.o.disps ++ " dm=" ++ dm ++ " gv=" ++ gv ++
-    " fcref=" ++ so s.o.fc ++ " derived=" ++
+    " fcref=" ++ so s.o.fc ++ " dq=" ++ so s.o.gvDeltaQ ++ " gvq=" ++
+      (match s.o.gv with
+        | none => "-"
+        | some g => (match g.qLength, g.dm.cls with
+          | some q, _ => toString q
+          | none, .gl => "default"
+          | none, _ => "analytic")) ++ " derived=" ++
       ",".intercalate ([Derived.mesh, .band, .tp, .dos].map fun d => match s.o.derivedGet d with
         | none => "-"
         | some p => (match p.cls with | .plain => "plain" | .wang => "wang" | .gl => "gl") ++ ":" ++ toString p.fc ++ ":" ++
